@@ -893,6 +893,18 @@ func (fr *Frame) preRegisterGhosts() {
 		seen[f] = true
 		for _, b := range f.Blocks {
 			for _, in := range b.Instrs {
+				if _, isSel := in.(*ssa.Select); isSel {
+					for _, pat := range pats {
+						if matchCallee(pat, "select") {
+							for _, g := range []string{fmt.Sprintf("$ret:%s:0", pat), fmt.Sprintf("$first:%s:0", pat)} {
+								if _, ok := u.heapSort[g]; !ok {
+									u.regHeap(g, "Int")
+								}
+							}
+						}
+					}
+					continue
+				}
 				ci, ok := in.(ssa.CallInstruction)
 				if !ok {
 					continue
